@@ -190,6 +190,8 @@ theorem step_gameBlind (s : State) (e : Event) :
   | autojoin => exact Or.inl (gb_foldl_join s.players s)
   | settle r => exact Or.inl (gb_settle s r)
   | «continue» ex => exact Or.inl (gb_continueGame s ex)
+  | contReset => exact Or.inl (gb_continueGame s true)
+  | tick ex => exact Or.inl (gb_nextMove s ex)
   | fire ch ok =>
     by_cases h : (gateFire s ch ok).2 = .opened
     · right
